@@ -312,6 +312,13 @@ def run(ctx):
         mags += ['3', '0.3', '1000', '1023.999', '%d' % (ctx.seed * 7919 + 17), '00012', '0.0']
     else:
         mags += ['%d.%d' % (ctx.seed + 2, ctx.seed % 10)]
+    from vlib import lits
+    nl = lits.new('oslo_utils/strutils.py', 'oslo_utils/imageutils/qemu.py')
+    for v in nl['ints'] + nl['floats']:
+        if abs(v) < 1e30:
+            mags += [repr(abs(v)), repr(abs(v) + 1) if isinstance(v, int) else repr(abs(v) * 1.5),
+                     '0.' + '0' * min(int(abs(v)), 25) + '4' if isinstance(v, int) and 0 < v < 26 else repr(abs(v))]
+    mags = list(dict.fromkeys(mags))
     E.run(rep, 'string_to_bytes', [SIGNS, mags, PREFIXES, UNITS, SYSTEMS], _case)
     E.run(rep, 'qemu-human', [QEMU_FIELDS, QEMU_NUMS, QEMU_UNITS, QEMU_TAILS], _qemu_case)
     E.run(rep, 'qemu-tail-precedence', [QEMU_FIELDS, ['0.5', '1.0 XiB', '10g', '1.0 Gi', '4K', '4.0K',
